@@ -68,7 +68,46 @@ def respell_numbers(text, rng):
     return text
 
 
-def run_channels(ctx, spec, p, inputs, workdir, n, skip_text=()):
+def subkey_argv(inputs, types):
+    """argv with structured values spelled option by option: --k=<class> --k.init_args.x=v, --k.field=v, --k.key=v.
+    -> argv or None when no setting has such a spelling"""
+    import re
+
+    argv, used = [], False
+    word = re.compile(r"^[A-Za-z_][A-Za-z0-9_]*$")
+    from vf.gen.types import DATACLASS_FIELD_T
+
+    for k, v in inputs.items():
+        t = types[k]
+        if t.kind == "optional" and v is not None:
+            t = t.children[0]
+        # which Union member reads a text is unspecified: such elements keep the whole-value spelling
+        if t.kind == "dict" and isinstance(v, dict) and any(text_ambiguous(t.children[0], x) for x in v.values()):
+            t = G.ANY
+        if t.kind == "dataclass" and isinstance(v, dict) and any(a in DATACLASS_FIELD_T.get(t.extra, {}) and text_ambiguous(DATACLASS_FIELD_T[t.extra][a], x) for a, x in v.items()):
+            t = G.ANY
+        if t.kind == "class" and isinstance(v, dict) and set(v) <= {"class_path", "init_args"} and isinstance(v.get("init_args", {}), dict) and v.get("init_args"):
+            argv.append(f"--{k}={v['class_path']}")
+            for a, x in v["init_args"].items():
+                argv.append(f"--{k}.init_args.{a}={P.argv_text(x)}")
+            used = True
+        elif t.kind == "dataclass" and isinstance(v, dict) and v:
+            for a, x in v.items():
+                argv.append(f"--{k}.{a}={P.argv_text(x)}")
+            used = True
+        elif t.kind == "dict" and t.extra is str and isinstance(v, dict) and v and all(isinstance(a, str) and word.match(a) for a in v):
+            argv.append(f"--{k}={{}}")  # item options add to the dict built so far (the default's items otherwise)
+            for a, x in v.items():
+                argv.append(f"--{k}.{a}={P.argv_text(x)}")
+            used = True
+        else:
+            argv.append(f"--{k}={P.argv_text(v)}")
+    if not used or any(a.split("=", 1)[1].startswith("-") and a.split("=", 1)[1] == "--" for a in argv):
+        return None
+    return argv
+
+
+def run_channels(ctx, spec, p, inputs, workdir, n, skip_text=(), types=None):
     """-> dict channel -> Outcome"""
     nested = P.nest(inputs)
     outs = {}
@@ -100,6 +139,11 @@ def run_channels(ctx, spec, p, inputs, workdir, n, skip_text=()):
         env = {env_name(k): P.argv_text(v) for k, v in inputs.items()}
         if not any("\x00" in v for v in env.values()):
             outs["env"] = call(p.parse_env, env)
+        if types is not None:
+            sk = subkey_argv(inputs, types)
+            if sk is not None:
+                outs["argv.subkeys"] = call(p.parse_args, sk)
+                ctx.count("st.argv_subkey_spelling")
     return outs
 
 
@@ -122,7 +166,12 @@ def compare(ctx, spec, outs, inputs, types, what):
                 t = types[k]
                 a = c01.single_parser(t)
                 r1 = call(a.parse_object, {"k": copy.deepcopy(v)})
-                if name.startswith(("argv.options", "env")):
+                if name == "argv.subkeys":
+                    sk = subkey_argv({"k": v}, {"k": t})
+                    if sk is None:
+                        continue
+                    r2 = call(a.parse_args, sk)
+                elif name.startswith(("argv.options", "env")):
                     r2 = call(a.parse_args, [f"--k={P.argv_text(v)}"])
                 else:
                     r2 = call(a.parse_string, json.dumps({"k": v}))
@@ -203,6 +252,8 @@ def _strings(v):
 def chan_family(name):
     if name.startswith("argv.options"):
         return "argv"
+    if name == "argv.subkeys":
+        return "argv-subkeys"
     if name.startswith("argv.cfg"):
         return "cfg-arg"
     return name.split(".")[0]
@@ -232,7 +283,7 @@ def case_channels(ctx, i, rng):
     skip_text = [k for k, v in inputs.items() if text_ambiguous(types[k], v) or types[k].has("any") or v == "--"]  # argparse reads "--k=--" as no value
     if skip_text:
         ctx.count("text_ambiguous_settings_not_rendered_on_argv_env")
-    outs = run_channels(ctx, spec, p, inputs, ctx.workdir, i, skip_text)
+    outs = run_channels(ctx, spec, p, inputs, ctx.workdir, i, skip_text, types=types)
     ctx.evaluation(("c05", tuple(sorted(t.skel for t in types.values())), bad[1] if bad else "valid", tuple(sorted(outs))))
     for t in types.values():
         for kd in t.kinds():
